@@ -17,7 +17,8 @@ LEVEL = "proof"
 
 def recordings(tier):
     rs = [P.spec([[0, 150], [150, 130]], name="gapped-100-per-file-150+130"),
-          P.spec([[0, 300000], [300000, 260000]], srn=200000, continuous=1, name="continuous-200k-per-file")]
+          P.spec([[0, 300000], [300000, 260000]], srn=200000, continuous=1, name="continuous-200k-per-file"),
+          P.spec([[0, 150], [170, 130]], name="gapped-channel-path-longer-than-300-characters", deep=1)]
     if tier == "thorough":
         rs += [P.spec([[30, 100], [250, 10], [260, 350]], name="gapped-midfile-start-and-gap"),
                P.spec([[0, 64], [64, 64], [128, 64], [192, 64]], srn=64, subdir_cadence=1, nsub=2, dtype="f4",
@@ -265,6 +266,10 @@ def replay(res, rp):
         return 0
     work = common.scratch_dir("c02replay-")
     top = os.path.join(work, "top")
+    if sp.get("deep"):
+        top = os.path.join(work, "d" * 100, "e" * 100, "f" * 70, "top")
+        os.makedirs(os.path.dirname(top))
+        print("channel directory path of %d characters" % len(os.path.join(top, P.CH)))
     i = inp.get("crash_before_op")
     if inp.get("label") == "restart-after-kill":
         return P.replay_restart(res, rp)
